@@ -1023,4 +1023,62 @@ Proof.
         [intros k Hk; by destruct (Hnoch _ _ _ _ Hbody k)|exact HFa|].
       split; [exact H1|]. intros k Hk. destruct (H2 k Hk) as [H0|H0]; [by destruct (Hnoch _ _ _ _ Hbody k)|exact H0].
 Qed.
+
+(* ------------------------------------------------------------------ the core fragment is closed under steps *)
+Record CoreCfg (c : config) : Prop := {
+  cc_procs : forall p pp, procs c !! p = Some pp -> core_form (pr_body0 pp) = true /\ exists n, pr_provs pp = [n];
+  cc_msgs : forall k st m, chans c !! k = Some st -> ch_buf st = Some m ->
+              m_rule m <> RGC /\ (m_rule m = RFWD -> exists n, m_provs m = [n])
+}.
+Definition core_funs (Fs : list fundef) : Prop := Forall (fun fd => core_form (fn_body fd) = true) Fs.
+
+Lemma core_recv_shape p pp m e n0 :
+  on_message p pp m = EOk e -> core_form (pr_body0 pp) = true -> pr_provs pp = [n0] ->
+  m_rule m <> RGC -> (m_rule m = RFWD -> exists n, m_provs m = [n]) ->
+  exists pp1 cl, e = Eff (Continue pp1) [] [] cl [] /\ core_form (pr_body0 pp1) = true /\ exists n, pr_provs pp1 = [n].
+Proof.
+  intros He Hcore Hpv Hgc Hmp. unfold on_message in He.
+  destruct (rule_eqb (m_rule m) RFWD && negb _) eqn:E1.
+  { apply andb_true_iff in E1 as [E1 _]. apply rule_eqb_eq in E1. injection He as <-.
+    eexists _, _. split; [reflexivity|]. cbn. split; [done|]. by apply Hmp. }
+  destruct (rule_eqb (m_rule m) RGC && negb _) eqn:E2.
+  { apply andb_true_iff in E2 as [E2 _]. apply rule_eqb_eq in E2. contradiction. }
+  destruct (pr_body0 pp) as [to pay cont|pay cont from k0|to l cont|from bs|x b k0|c0|c0 k0|to from d|x y from k0|fn args pt|to cont|x from k0|c0 k0|l k0] eqn:Eb;
+    try discriminate; simpl in Hcore.
+  - destruct (is_self from); [destruct (rule_eqb (m_rule m) RRCV)|destruct (rule_eqb (m_rule m) RSND)]; try discriminate; injection He as <-;
+      (eexists _, _; split; [reflexivity|]); cbn; rewrite ?core_subst; eauto.
+  - destruct (is_self from); [destruct (rule_eqb (m_rule m) RBRA)|destruct (rule_eqb (m_rule m) RSEL)]; try discriminate;
+      destruct (find_branch (m_label m) bs) as [[pay K]|] eqn:Efb; try discriminate; injection He as <-;
+      (eexists _, _; split; [reflexivity|]); cbn; rewrite ?core_subst; (split; [eapply core_find; eauto|eauto]).
+  - destruct (rule_eqb (m_rule m) RCLS); try discriminate; injection He as <-;
+      (eexists _, _; split; [reflexivity|]); cbn; eauto.
+  - destruct d; [discriminate|].
+    destruct (m_rule m) eqn:Er; try discriminate; try (injection He as <-; (eexists _, _; split; [reflexivity|]); cbn; eauto; fail).
+    destruct (m_provs m) as [|q r] eqn:Em; [discriminate|]. injection He as <-.
+    eexists _, _. split; [reflexivity|]. cbn. split; [done|]. destruct (Hmp eq_refl) as [n Hn]. injection Hn as -> ->. eauto.
+  - destruct (is_self from); [destruct (rule_eqb (m_rule m) RSHF)|destruct (rule_eqb (m_rule m) RCST)]; try discriminate; injection He as <-;
+      (eexists _, _; split; [reflexivity|]); cbn; rewrite ?core_subst; eauto.
+Qed.
+
+(* sends of the core fragment: no GC request, and a forward request carries the providers of the forward *)
+Lemma core_send_msg pp k m : core_form (pr_body0 pp) = true -> action_of Async D pp = ASend k m ->
+  m_rule m <> RGC /\ (m_rule m = RFWD -> m_provs m = pr_provs pp).
+Proof.
+  intros Hcore Ha. unfold action_of in Ha.
+  destruct (pr_body0 pp) as [to pay cont|pay cont from k0|to l cont|from bs|x b k0|c0|c0 k0|to from d|x y from k0|fn args pt|to cont|x from k0|c0 k0|l k0] eqn:Eb;
+    simpl in Ha, Hcore;
+    repeat match type of Ha with
+           | (if ?b then _ else _) = _ => destruct b eqn:?
+           | match ?x with _ => _ end = _ => destruct x eqn:?
+           end;
+    try discriminate;
+    try (unfold internal in Ha; destruct (multi pp); discriminate);
+    try (unfold recv_on in Ha; repeat match type of Ha with
+           | (if ?b then _ else _) = _ => destruct b
+           | match ?x with _ => _ end = _ => destruct x
+           end; discriminate);
+    try (apply send_on_chan in Ha as [_ ->]; cbn; split; discriminate);
+    try (injection Ha as <- <-; cbn; split; [discriminate|done]).
+  all: destruct d; [discriminate|]; injection Ha as <- <-; cbn; split; [discriminate|done].
+Qed.
 End Step.
